@@ -293,14 +293,16 @@ def main(argv=None):
     t0 = time.time()
     out = Outcome()
     ev = {}
+    # development aid (seed runs): VERIF_ENGINES=M restricts the run to the listed engines; registered commands never set it
+    engines = "".join(e for e in P.PROPS[pid]["engines"] if e in os.environ.get("VERIF_ENGINES", "KTM"))
     try:
-        if "K" in P.PROPS[pid]["engines"]:
+        if "K" in engines:
             run_engine_k(pid, a.tier, seed, out, ev)
-        if "M" in P.PROPS[pid]["engines"]:
+        if "M" in engines:
             # engine M first: seconds; it reports module-level mis-bindings with a concrete host environment
             from . import mv
             mv.run_engine_m(pid, a.tier, seed, out, ev)
-        if "T" in P.PROPS[pid]["engines"]:
+        if "T" in engines:
             from . import tv
             tv.run_engine_t(pid, a.tier, seed, out, ev)
     finally:
